@@ -205,8 +205,17 @@ C19_Checks(r) ==
                 /\ (Has_(r, "self") => ("str" \in DOMAIN r.self /\ Ok(r.self.str)))
              THEN {<<"C19.str_total", TRUE, C19_StrTotal(r.out.ok)>>} ELSE {})
 
+\* ---------------------------------------------------------------- C05 at URL level
+\* "every URL-level result is independent of whether the C extension is available": the same program is run under both back
+\* ends and the harness pairs the two records (plumbing only); every recorded part -- result or exception class, receiver,
+\* reference, all accessors incl. human_repr -- must be identical
+PairParts == {"out", "self", "other", "arg_unchanged"}
+C05_PairSame(r) == \A f \in PairParts : (f \in DOMAIN r.c \/ f \in DOMAIN r.py) => (f \in DOMAIN r.c /\ f \in DOMAIN r.py /\ r.c[f] = r.py[f])
+C05_Checks(r) == IF r.act = "pair" THEN {<<"C05.same_url", TRUE, C05_PairSame(r)>>} ELSE {}
+
 Checks(r) ==
   CASE Prop = "C07" -> C07_Checks(r)
+    [] Prop = "C05" -> C05_Checks(r)
     [] Prop = "C19" -> C19_Checks(r)
     [] Prop = "C18" -> C18_Checks(r)
     [] Prop = "C16" -> C16_Checks(r)
